@@ -928,5 +928,32 @@ def sql_cond_attr(prog: Program) -> RuleResult:
     return r
 
 
+def sql_on_clause(prog: Program) -> RuleResult:
+    """A path `fc.parent.world.id` is joined hop by hop, each hop onto a fresh alias.  From the second hop on, the source of the join is itself an
+    alias, and the ON clause has to relate *that alias* to the new one: the relationship attribute must be read from the FROM element the
+    path has reached (`getattr(<current element>, name)`).  The attribute of the declaring class (`relationship.class_attribute`, the mapper's
+    own attribute) names the unaliased table - for a joined-inheritance hierarchy that table is in the statement already as part of the
+    selected entity, and `fc.parent.world.id == 1` is silently answered as `fc.world.id == 1`."""
+    r = RuleResult("SQL-ON-CLAUSE", "a path join relates the FROM element the path has reached to the new alias", floor=1)
+    tr = prog.cls(TR)
+    f = tr.methods.get("_apply_relationship_join")
+    if f is None:
+        raise AnalysisError("SQL-ON-CLAUSE: EQLTranslator._apply_relationship_join vanished")
+    elem = f.params[1]
+    joins = [c for c in calls_in(f.node) if call_name(c) == "join" and len(c.args) >= 2]
+    if not joins:
+        raise AnalysisError("SQL-ON-CLAUSE: the path join no longer passes a relationship attribute to join()")
+    for c in joins:
+        on = c.args[1]
+        if isinstance(on, ast.Name):
+            defs = [x.value for x in walk_local(f.node) if isinstance(x, ast.Assign) and any(isinstance(t, ast.Name) and t.id == on.id for t in x.targets)]
+            on = defs[0] if len(defs) == 1 else on
+        ok = isinstance(on, ast.Call) and isinstance(on.func, ast.Name) and on.func.id == "getattr" and len(on.args) >= 2 and isinstance(on.args[0], ast.Name) and on.args[0].id == elem
+        r.check(ok, "EQLTranslator._apply_relationship_join#attribute-of-the-current-element", site(f, c), src(on)[:80], f"the relationship attribute is read from `{elem}`, the element the path has reached",
+                f"the join is made on `{src(on)[:60]}`, which is not the attribute of `{elem}`: from the second hop of a path on, the ON clause names the unaliased table instead of the alias "
+                f"the path came from, and the condition is applied to the selected entity's own row")
+    return r
+
+
 def run(prog: Program, tier: str) -> List[RuleResult]:
-    return [guard(lambda: sql_reject(prog)), guard(lambda: sql_ops(prog)), guard(lambda: sql_varid(prog)), guard(lambda: sql_alias(prog)), guard(lambda: sql_fetch(prog)), guard(lambda: sql_membership(prog)), guard(lambda: sql_chain(prog)), guard(lambda: sql_state(prog)), guard(lambda: sql_exact_dao(prog)), guard(lambda: sql_clause_truth(prog)), guard(lambda: sql_cond_attr(prog))]
+    return [guard(lambda: sql_reject(prog)), guard(lambda: sql_ops(prog)), guard(lambda: sql_varid(prog)), guard(lambda: sql_alias(prog)), guard(lambda: sql_fetch(prog)), guard(lambda: sql_membership(prog)), guard(lambda: sql_chain(prog)), guard(lambda: sql_state(prog)), guard(lambda: sql_exact_dao(prog)), guard(lambda: sql_clause_truth(prog)), guard(lambda: sql_cond_attr(prog)), guard(lambda: sql_on_clause(prog))]
